@@ -2256,7 +2256,8 @@ class ClangShellCommand : public ExternalCommand {
   
   virtual CommandSignature getSignature() const override {
     return ExternalCommand::getSignature()
-        .combine(args);
+        .combine(args)
+        .combine(depsPath);
   }
 
   bool processDiscoveredDependencies(TaskInterface ti,
